@@ -1062,6 +1062,9 @@ class Models:
 
     def call_repo(self, ex, fr, args, kwargs, st, node, bound_self=None):
         c = self.registry.get(fr.qualname)
+        variant = getattr(self, "callee_variants", {}).get(fr.qualname)
+        if variant is not None:
+            c = self.registry[f"{fr.qualname}#{variant}"]
         if fr.qualname in self.inline_ok:
             c = None
         if c is not None and not c.inline:
